@@ -2,7 +2,7 @@ HP_G = 'hp:slot,gops_k1,gops_k2,gops_k3,gops_k5,acq_k2,acq_k3,acq_int_k1,acq_int
 EBR_G = 'ebr:g_ctor,g_copy,g_move,g_reset,g_dtor,g_assign_copy,g_assign_move,g_reclaim,region_guard,g_acquire,g_acquire_int,g_acquire_if_equal,g_acquire_if_equal_int'
 QSBR_G = 'qsbr:region_guard,g_ctor,g_copy_ctor,g_move_ctor,g_copy_assign,g_move_assign,g_swap,g_reset,g_reclaim,g_acquire,g_acquire_int,g_aie,g_aie_int'
 LFRC_G = 'lfrc:layout,hdr,g_ctor,g_copy_ctor,g_move_ctor,g_copy_assign,g_move_assign,g_swap,g_reset,g_reclaim,g_acquire,g_acquire_int,g_aie,g_aie_int'
-STAMP_G = 'stampit_guard:gp_ctor,gp_assign,gp_reset,gp_reclaim,gp_acquire,gp_acquire_int'
+STAMP_G = 'stampit_guard:region_guard,gp_ctor,gp_assign,gp_reset,gp_reclaim,gp_acquire,gp_acquire_int'
 PROP = dict(
   units=['he:g_ctor_K1,g_assign_K1,g_reset_swap_reclaim_K1,g_acquire_K1,g_acquire_if_equal_K1,int_acquire_K1,int_acquire_if_equal_K1,g_ctor_K2,g_assign_K2,g_reset_swap_reclaim_K2,g_acquire_K2,g_acquire_if_equal_K2,int_acquire_K2,int_acquire_if_equal_K2,g_ctor_K3,g_assign_K3,g_reset_swap_reclaim_K3,g_acquire_K3,g_acquire_if_equal_K3,int_acquire_K3,int_acquire_if_equal_K3', 'mp', 'cptr', HP_G, EBR_G, QSBR_G, LFRC_G, STAMP_G],
   level='proof',
